@@ -224,10 +224,14 @@ def prepareOnAll (results : List (Except Nat String)) : Except PErr String :=
     | .error e :: _ => .error (.allAttemptsFailed e)
     | _ => .error .noConnections
 
-/-- first on one connection per node; if that did not yield a statement, once more on a connection per shard -/
+/-- first on one connection per node; if that did not yield a statement, once more on a connection per shard.
+`iter_working_connections_to_nodes()?` / `…_to_shards()?` (session.rs:1630, 1646): with no working connection the call
+returns the pool error AT ONCE (an empty list here), before anything is sent. -/
 def prepareNongeneric (perNode perShard : List (Except Nat String)) : Except PErr String :=
-  match prepareOnAll perNode with
-  | .ok id => .ok id
-  | .error _ => prepareOnAll perShard
+  if perNode.isEmpty then .error .noConnections
+  else
+    match prepareOnAll perNode with
+    | .ok id => .ok id
+    | .error _ => if perShard.isEmpty then .error .noConnections else prepareOnAll perShard
 
 end ScyllaVerif.PreparedSession
